@@ -552,6 +552,12 @@ impl<'a> Http2Parser<'a> {
         let mut scheme = None;
         let mut status = None;
 
+        // The HPACK dynamic table belongs to one connection, and every call decodes a
+        // connection's first header block from its start: begin with an empty table instead of
+        // the state left behind by whatever was decoded before (another connection, or an
+        // earlier attempt on the same bytes)
+        self.hpack_decoder.replace(Decoder::new());
+
         let stream_frames: Vec<&Http2Frame> =
             frames.iter().filter(|f| f.stream_id == stream_id).collect();
 
